@@ -693,7 +693,10 @@ Lemma relationships_spec : forall t maxd,
   root_not_placeholder t -> effective_max t = Some maxd ->
   match relationships t with
   | inr (rootch, ps, ds, chs) =>
-      Str t maxd /\ Inv2 (hashes_of t) (edges t) ps /\ length ds = length (hashes_of t)
+      Str t maxd /\ Inv2 (hashes_of t) (edges t) ps /\ length ds = length (hashes_of t) /\
+      rootch = rootch_of t /\ chs = chs_of t /\
+      (forall k h, nth_error (hashes_of t) k = Some h ->
+         exists d, nth_error ds k = Some (N.of_nat d) /\ depth_of t h d)
   | inl e => is_reject e /\ ~ Str t maxd
   end.
 Proof.
@@ -732,19 +735,25 @@ Proof.
     pose proof (T2 t ND hk d0 Hd0) as Hp0. rewrite (pos_of_nth _ _ _ ND Ehk) in Hp0.
     pose proof (closure_vis _ _ _ _ _ _ _ I3 k d0 Hp0) as Hv.
     apply (i3_marked _ _ _ _ _ _ _ _ I3) in Hv. destruct Hv as (d & Hd & Hne). congruence. }
-  split; [|split; auto].
   pose proof (proj1 (first_unmarked_None _ _ _ (eq_sym Hdl)) E4) as E4'.
-  assert (Hall : forall h, In h (hashes_of t) -> exists d, depth_of t h d /\ N.of_nat d <= maxd).
-  { intros h Hh. destruct (In_nth_error _ _ Hh) as (k & Hk).
+  assert (Hall' : forall k h, nth_error (hashes_of t) k = Some h ->
+            exists d, nth_error ds k = Some (N.of_nat d) /\ depth_of t h d /\ N.of_nat d <= maxd).
+  { intros k h Hk.
     assert (Hklt : (k < length ds)%nat) by (rewrite Hdl; apply nth_error_Some; congruence).
     destruct (nth_error ds k) as [d|] eqn:Ed; [|apply nth_error_None in Ed; lia].
     assert (Hv : In k vis) by (apply (i3_marked _ _ _ _ _ _ _ _ I3); exists d; split; eauto).
-    destruct (i3_depth _ _ _ _ _ _ _ _ I3 k Hv) as (d' & _ & Hp & Hle).
-    destruct (T1 t G k d' Hp) as (h' & Hh' & Hd'). rewrite Hk in Hh'. inversion Hh'; subst h'. eauto. }
-  split; [auto|split; [apply (decl_in t G)|split; auto]].
-  intros h Hh. destruct (Hall h Hh) as (d & Hd & _). apply depth_of_declared in Hd.
-  pose proof (proj1 (NoDup_count_occ N.eq_dec _) (decl_nodup t G) h).
-  apply (count_occ_In N.eq_dec) in Hd. lia.
+    destruct (i3_depth _ _ _ _ _ _ _ _ I3 k Hv) as (d' & Hd' & Hp & Hle).
+    destruct (T1 t G k d' Hp) as (h' & Hh' & Hdep). rewrite Hk in Hh'. inversion Hh'; subst h'.
+    exists d'. rewrite <- Ed. auto. }
+  assert (Hall : forall h, In h (hashes_of t) -> exists d, depth_of t h d /\ N.of_nat d <= maxd).
+  { intros h Hh. destruct (In_nth_error _ _ Hh) as (k & Hk).
+    destruct (Hall' k h Hk) as (d & _ & Hd & Hle). eauto. }
+  split; [|split; [exact I2|split; [exact Hdl|split; [reflexivity|split; [reflexivity|]]]]].
+  - split; [auto|split; [apply (decl_in t G)|split; auto]].
+    intros h Hh. destruct (Hall h Hh) as (d & Hd & _). apply depth_of_declared in Hd.
+    pose proof (proj1 (NoDup_count_occ N.eq_dec _) (decl_nodup t G) h).
+    apply (count_occ_In N.eq_dec) in Hd. lia.
+  - intros k h Hk. destruct (Hall' k h Hk) as (d & H1 & H2 & _). eauto.
 Qed.
 
 (* ---------- yield counts ---------- *)
@@ -924,7 +933,7 @@ Proof.
   - destruct HR as (Hr & HnS). split.
     + intros (r & p & d & c & E). exfalso. eapply reject_not_accept; eauto.
     + intros (W1 & W2 & W3 & W4 & _). exfalso. apply HnS. repeat split; auto.
-  - destruct HR as (S & I2 & Hlen).
+  - destruct HR as (S & I2 & Hlen & _).
     pose proof (Str_all_declared _ _ S) as Hall.
     pose proof S as (ND & _).
     pose proof (yields_iff t ps ND Hf I2 Hall) as HY.
@@ -987,7 +996,7 @@ Proof.
   pose proof (relationships_spec t maxd Hroot Hmax) as HR.
   destruct (relationships t) as [e|[[[rootch ps] ds] chs]].
   - destruct HR as ((x & l & ->) & _). discriminate.
-  - destruct HR as (S & I2 & Hlen).
+  - destruct HR as (S & I2 & Hlen & _).
     pose proof (Str_all_declared _ _ S) as Hall. pose proof S as (ND & _).
     pose proof (yield_check_spec t (hashes_of t) ps 0) as HC.
     destruct (yield_check (yield_summaries t) (hashes_of t) ps 0) as [e|]; [|discriminate].
@@ -1043,4 +1052,30 @@ Proof.
   destruct (dfs f (hashes_of t) maxd chs (push_children rootch 1 []) (repeat 0 (length (hashes_of t)))) as [e|ds] eqn:E.
   - intro H. rewrite (dfs_fuel_mono _ _ _ _ _ _ _ E); auto. congruence.
   - intros _. rewrite (dfs_fuel_mono _ _ _ _ _ _ _ E); auto. discriminate.
+Qed.
+
+(* on acceptance the returned relationship details are exactly the declared structure:
+   children as positions, the parent of every subintent is an intent that declares it, the depth is
+   its distance from the root *)
+Theorem accept_details : forall t maxd r ps ds chs,
+  root_not_placeholder t -> effective_max t = Some maxd ->
+  validate t = Accept r ps ds chs ->
+  r = map (pos (hashes_of t)) (i_children (t_root t)) /\
+  chs = map (fun s => map (pos (hashes_of t)) (i_children (s_intent s))) (t_subs t) /\
+  forall k h, nth_error (hashes_of t) k = Some h ->
+    exists p d, nth_error ps k = Some p /\ In (p, h) (edges t) /\
+                nth_error ds k = Some (N.of_nat d) /\ depth_of t h d.
+Proof.
+  intros t maxd r ps ds chs Hroot Hmax. unfold validate, validate_with. fold (relationships t).
+  pose proof (relationships_spec t maxd Hroot Hmax) as HR.
+  destruct (relationships t) as [e|[[[rootch ps0] ds0] chs0]].
+  - destruct HR as ((x & l & ->) & _). discriminate.
+  - destruct HR as (S & I2 & Hlen & Hr & Hc & Hd).
+    destruct (yield_check (yield_summaries t) (hashes_of t) ps0 0) as [o|] eqn:EY.
+    + intro E. exfalso. destruct (yield_check_kind _ _ _ _ _ EY) as [(x & l & ->)| ->]; discriminate.
+    + intro E. inversion E; subst. split; [reflexivity|]. split; [reflexivity|].
+      intros k h Hk. destruct (Hd k h Hk) as (d & Hd1 & Hd2).
+      assert (Hh : In h (map snd (edges t))).
+      { rewrite map_snd_edges. eapply Str_all_declared; eauto. eapply nth_error_In; eauto. }
+      destruct (i2_set _ _ _ I2 k h Hk Hh) as (p & Hp & Hin). eauto 8.
 Qed.
